@@ -565,6 +565,11 @@ func (m *Module) validateFunctionWithMaxStackValues(
 				if err := enabledFeatures.RequireEnabled(experimental.CoreFeaturesTailCall); err != nil {
 					return fmt.Errorf("%s invalid as %v", OpcodeTailCallReturnCallName, err)
 				}
+				// The callee returns directly to the caller's caller, so its results must be exactly the caller's.
+				if !bytes.Equal(funcType.Results, functionType.Results) {
+					return fmt.Errorf("type mismatch on %s: callee results %v do not match the results of the calling function %v",
+						OpcodeTailCallReturnCallName, funcType.Results, functionType.Results)
+				}
 				// Same formatting as OpcodeEnd on the outer-most block
 				if err := valueTypeStack.requireStackValues(false, "", functionType.Results, false); err != nil {
 					return err
@@ -627,6 +632,11 @@ func (m *Module) validateFunctionWithMaxStackValues(
 			if op == OpcodeTailCallReturnCallIndirect {
 				if err := enabledFeatures.RequireEnabled(experimental.CoreFeaturesTailCall); err != nil {
 					return fmt.Errorf("%s invalid as %v", OpcodeTailCallReturnCallIndirectName, err)
+				}
+				// The callee returns directly to the caller's caller, so its results must be exactly the caller's.
+				if !bytes.Equal(funcType.Results, functionType.Results) {
+					return fmt.Errorf("type mismatch on %s: callee results %v do not match the results of the calling function %v",
+						OpcodeTailCallReturnCallIndirectName, funcType.Results, functionType.Results)
 				}
 				// Same formatting as OpcodeEnd on the outer-most block
 				if err := valueTypeStack.requireStackValues(false, "", functionType.Results, false); err != nil {
